@@ -19,10 +19,11 @@ from props import c06_util as X
 PROP = "C06"
 LEVEL = "proof"
 GEN_UNITS = ["GenUtils"]
-COQ_TARGETS = ["Props/C06.vo", "Model/Harness.vo"]
+COQ_TARGETS = ["Props/C06.vo", "Model/C06Stm.vo", "Model/Harness.vo"]
 THEOREM_FILES = ["Props/C06.v"]
 COQ_IMPORTS = ("From Coq Require Import List ZArith Bool QArith Qcanon.\n"
-               "From PV Require Import Base.Index Np.Array Model.Sparse Model.Repr Model.Harness Model.C03Ops Model.C06Ops.\n"
+               "From PV Require Import Base.Index Np.Array Model.Sparse Model.Repr Model.Harness Model.C03Ops Model.C06Ops Model.C01Conv Model.C06Stm\n"
+               "                       Model.C02Spec Model.C02Sparse Model.C02SpKernels Model.C02SpMore Model.C07Ops.\n"
                'Set Warnings "-abstract-large-number".\n')
 RULE = ("stream 1: every C03 request (operator x right-hand-side kind) on all zero-pattern pairs of the shapes (2,2) [operators rotated] and "
         "(3,) [all operators], plus seeded larger shapes; squash and from_aggregator with permuted input rows. stream 2 (admissible requests "
@@ -32,31 +33,47 @@ RULE = ("stream 1: every C03 request (operator x right-hand-side kind) on all ze
         "factorisation; squeeze (no / some / all singleton modes); ttv (single mode, several modes, all modes; vectors with zeros; sparse, "
         "dense and scalar results); ttm (one or two ndarray matrices, either orientation; scipy coo matrices to reach the sparse-result "
         "branch); contract (every ordered pair of equal modes); collapse by sum (every mode subset and all modes: scalar / vector / sparse "
-        "result); scale (tensor / sptensor / ndarray factor); to_sptenmat with random row/column mode splits (incl. an empty side) and "
-        "to_sptensor back; __setitem__ (scalar into a region, values incl. 0 at listed subscripts, one or two steps); mask (the mask's "
-        "stored order is permuted too); extract; __getitem__ (region and subscript list). EVERY request of both streams is re-run for ALL "
-        "n! stored orders (n <= 4) of each sparse operand, identity/reversed/3 random orders beyond 4 nonzeros; non-trivial = at least two "
-        "distinct stored orders were run; distinct = distinct (op, args)")
-EXPLANATION = ("Theorems: uniqueness of the representation up to stored order (canon_unique), canonical form, and order independence of "
-               "every operation that is denotationally correct (instantiated for all operators proved in C03). Correspondence, evaluated in "
-               "Coq on pyttb's raw outputs (Model/C06Ops.v): the result kind (sptensor / tensor / ndarray / number / sptenmat) is the same for "
-               "every stored order; every returned sptensor and sptenmat (read as a 2-way coordinate list) satisfies the raw well-formedness "
-               "bits (one value per subscript row, in bounds, pairwise distinct, no explicit zero, nnz = stored rows); all runs have the same "
-               "canonical form (all_same_sparse / all_same_sparse_e / all_same_dense / all_same_assoc) or the same number "
-               "(all_same_scalar, exact in Qc); innerprod additionally equals the sum of products over all subscripts computed by Coq from "
-               "the literal operands (zinner), norm^2 the sum of squares (1e-9), and to_sptensor(to_sptenmat(S)) is S up to stored order.")
+        "result); scale (tensor / sptensor / ndarray factor, factors with zeros); to_sptenmat with random row/column mode splits (incl. an "
+        "empty side) and to_sptensor back; __setitem__ (scalar into a region, values incl. 0 at listed subscripts, one or two steps; region "
+        "keys holding index LISTS that are distinct or REPEAT an index, on empty and non-empty receivers, with a scalar / zero / sptensor "
+        "right-hand side, optionally growing the shape); mask (the mask's stored order is permuted too); extract; __getitem__ (region and "
+        "subscript list). stream 3 (third wave): sptenmat histories (a sptenmat built by to_sptenmat / the copying constructor / the "
+        "no-copy constructor from every stored order, then 1..4 __setitem__ calls: zero / nonzero onto a stored / an absent position, "
+        "alone and mixed in one call with and without a new entry, whole rows / columns by slice, zeroing everything one call at a time; "
+        "raw arrays, nnz and to_sptensor() observed after EVERY step); chains (the result of + - * and/or/xor, S-S, S*0, -S, all entries "
+        "assigned zero — exact cancellation included — fed into a second operation, compared with the same request on a freshly built "
+        "copy); generators (sptendiag with zero elements, all requested-shape relations and re-use of the caller's vector; sptenrand and "
+        "from_function incl. near saturation; sptenmat constructor and from_array with repeated, cancelling and zero triples). EVERY "
+        "request of streams 1-2 is re-run for ALL n! stored orders (n <= 4) of each sparse operand, identity/reversed/3 random orders "
+        "beyond 4 nonzeros (histories and chains: at most 8 orders besides the identity); every stream-2/3 request is also re-run with the "
+        "operand's subscript array Fortran-ordered and with both arrays as strided views handed over without a copy; non-trivial = at "
+        "least two distinct stored orders were run, or a history / chain / generator case; distinct = distinct (op, args)")
+EXPLANATION = ("Theorems: uniqueness of the representation up to stored order (canon_unique), canonical form, order independence of "
+               "every operation that is denotationally correct (instantiated for the C03 operators, permute/reshape/squeeze/to_sptenmat/"
+               "__setitem__ of sptensor, squash, sptenmat.__setitem__, and the C02 kernels ttv/ttm/collapse/contract/scale/mask/innerprod/"
+               "norm^2). Correspondence, evaluated in Coq on pyttb's raw outputs (Model/C06Ops.v, Model/C06Stm.v): the result kind is the "
+               "same for every stored order and memory layout; every returned sptensor and sptenmat satisfies the raw well-formedness bits "
+               "(one value per subscript row, integer DTYPE of the subscript array whenever a row is stored, in bounds, pairwise distinct, "
+               "no explicit zero, nnz = stored rows, full() returns); all runs have the same canonical form or the same number; the first "
+               "run is what the model the theorems are stated over computes from the literal operand (impl_ttv_sp, impl_ttm_sp, "
+               "impl_collapse_sp, impl_contract_sp, impl_scale_sp, impl_mask_sp, permute_sp, reshape_sp_all, squeeze_sp, squash, zinner, "
+               "impl_stm_setitem after every step of a sptenmat history); generators denote what they are asked for (sptendiag: the "
+               "super-diagonal; aggregating constructors: the sums), do not alias or change the caller's arrays.")
 CORRESPONDENCE_ONLY = [
     "__truediv__ (scalar/dense: result well-formedness is part of C03_div_scalar / C03_div_dense_partial; sparse operand: open finding A-07), "
     "logical_or/xor with dense/scalar operands (dense results), __eq__/__ne__ scalar/dense/sparse own paths (proved correct in C03, no separate "
     "C06 instance): order independence observed on pyttb's raw outputs",
-    "squash (executable model, no proof)", "from_aggregator with duplicate input rows (proved in C03_from_aggregator; order independence of the INPUT rows observed only for sum)",
-    "innerprod (sparse / dense / Kruskal operand) and norm: order independence and the exact value observed on pyttb's outputs (no C06 theorem instantiated for them)",
-    "ttv, ttm, contract, collapse, scale, mask, extract: well-formedness of the result and order independence observed on pyttb's raw outputs "
-    "only (their denotational theorems are C02's; no C06 corollary instantiated). permute, reshape (all modes), squeeze, to_sptenmat/to_sptensor "
-    "and every __setitem__/__getitem__ path of the C04 state machine ARE proved well-formed and order-independent (C06_ops_permute, "
-    "_reshape, _squeeze, _sptenmat, _setitem) as corollaries of the C07/C01/C04 theorems",
-    "reshape with old_modes, __setitem__ with a sparse right-hand side or growing the shape, collapse with a function other than sum, "
-    "sptenmat methods other than to_sptensor: not generated",
+    "from_aggregator with duplicate input rows (proved in C03_from_aggregator; order independence of the INPUT rows observed only for sum)",
+    "innerprod with a Kruskal operand; norm: the square root (norm^2 is proved order-independent)",
+    "ttv / ttm / collapse / contract: the C02 models give the VALUE of the result at every subscript (proved order-independent and equal to "
+    "the defining sum: C06_ops_ttv, _ttm, _collapse, _contract); the well-formedness of the CONTAINER pyttb returns for them (sptensor / "
+    "tensor switch, accumulation of equal projections, no explicit zero) is observed on pyttb's raw outputs only; ttm with several matrices "
+    "or a scipy matrix, collapse with a function other than sum: observed only / not generated",
+    "extract, __getitem__ of sptensor beyond the C04 state machine's paths; __setitem__ with a sparse right-hand side, with index-list keys or "
+    "growing the shape: generated and observed (raw bits, order independence), no theorem; reshape with old_modes: not generated",
+    "squash: the theorem (C06_squash, C06_ops_squash) is about the specified behaviour; pyttb's result is compared with it in subscripts and "
+    "values, its shape deviates (open finding A-27)",
+    "chains, memory layouts, generators (sptendiag, sptenrand, from_function, sptenmat constructor / from_array): observed only",
 ]
 
 
@@ -164,24 +181,59 @@ def run_one(op, a):
     if op == "squash":
         try:
             S = tgen.mk_sptensor(ttb, np, a["shape"], a["subs"], a["vals"])
-            return U.observe(ttb, np, S.squash())
+            R = S.squash()
+            return X.strict_bits(np, ttb, R, U.observe(ttb, np, R))
         except Exception as ex:
             return {"exc": type(ex).__name__, "msg": str(ex)[:160]}
     if op == "from_agg":
         try:
             s = np.array(a["subs"], dtype=int).reshape((len(a["subs"]), len(a["shape"])))
             v = np.array(a["vals"], dtype=float).reshape((len(a["vals"]), 1))
-            return U.observe(ttb, np, ttb.sptensor.from_aggregator(s.copy(), v.copy(), tuple(a["shape"])))
+            R = ttb.sptensor.from_aggregator(s.copy(), v.copy(), tuple(a["shape"]))
+            return X.strict_bits(np, ttb, R, U.observe(ttb, np, R))
         except Exception as ex:
             return {"exc": type(ex).__name__, "msg": str(ex)[:160]}
     if op in X.EXT_OPS:
         return X.run_ext(op, a)
-    return U.run_elementwise(op, a)
+    return run_elementwise(op, a)
+
+
+def run_elementwise(op, a):
+    """c03_util.run_elementwise + the strict bits of the returned sptensor (dtype of subs, full() returns)"""
+    import numpy as np
+    import pyttb as ttb
+    try:
+        S = tgen.mk_sptensor(ttb, np, a["shape"], a["subs"], a["vals"])
+        R = U.mk_rhs(ttb, np, a) if "rk" in a else None
+        with np.errstate(all="ignore"):
+            r = U.apply_op(ttb, np, op, S, R)
+        o = U.observe(ttb, np, r)
+        if isinstance(r, ttb.sptensor):
+            with np.errstate(all="ignore"):
+                X.strict_bits(np, ttb, r, o)
+        return o
+    except Exception as ex:
+        return {"exc": type(ex).__name__, "msg": str(ex)[:160]}
+
+
+def run_plan(c):
+    """(perm of A, perm of B, memory layout of A's arrays): every stored-order variant in the default layout, then (second
+    stream) the identity order with a Fortran-ordered subscript array and with strided views handed over without a copy"""
+    a = c.args
+    plan = [(pa, pb, None) for pa, pb in a["variants"]]
+    if c.op in X.LAYOUT_OPS:
+        pa, pb = a["variants"][0]
+        plan += [(pa, pb, "F"), (pa, pb, "view")]
+    return plan
+
+
+def labels(c):
+    return [(pa, pb if l is None else f"{pb} layout={l}") for pa, pb, l in run_plan(c)]
 
 
 def run_impl(c):
     a = c.args
-    return {"runs": [run_one(c.op, permuted(a, pa, pb)) for pa, pb in a["variants"]]}
+    return {"runs": [run_one(c.op, dict(permuted(a, pa, pb), **({"layout": l} if l else {}))) for pa, pb, l in run_plan(c)]}
 
 
 # ---------------------------------------------------------------------------------------------
@@ -193,6 +245,8 @@ def glist(items):
 
 def coq_check(c, o):
     runs = o["runs"]
+    if c.op in X.MUST_RETURN and any("exc" in r for r in runs):
+        return "false"          # admissible requests by construction: an exception is a failure
     if all("exc" in r for r in runs):
         # the request is refused for every stored order: nothing is returned, so C06 has nothing to say
         # (whether refusing is right is C03's question); different exception types still count as different results
@@ -204,7 +258,7 @@ def coq_check(c, o):
     kinds = {r.get("kind") for r in runs}
     if len(kinds) != 1 or kinds - {"sparse", "dense"}:
         return "false"
-    if not all(c03.raw_ok(r) for r in runs):
+    if not all(c03.raw_ok(r) and X.strict_ok(r) for r in runs):
         return "false"
     isdiv = c.op in ("div", "rdiv")
     kind = kinds.pop()
@@ -241,17 +295,21 @@ def canon_py(r):
 
 def oracle(c, o):
     runs = o["runs"]
+    if c.op in X.MUST_RETURN:
+        for r in runs:
+            if "exc" in r:
+                return f"admissible request raises {r['exc']}: {r.get('msg')}"
     if all("exc" in r for r in runs):
         return None
-    for r, (pa, pb) in zip(runs, c.args["variants"]):
+    for r, (pa, pb) in zip(runs, labels(c)):
         if "exc" in r:
             return f"stored order {pa}/{pb}: raises {r['exc']} while another stored order of the same operands returns a result"
     if c.op in X.EXT_OPS:
-        return X.oracle_ext(c, runs, c.args["variants"])
-    for r, (pa, pb) in zip(runs, c.args["variants"]):
+        return X.oracle_ext(c, runs, labels(c))
+    for r, (pa, pb) in zip(runs, labels(c)):
         if r["kind"] == "sparse":
             shape = r["shape"] if c.op == "squash" else c.args["shape"]
-            p = U.wf_problems(r, shape)
+            p = X.strict_problem(r) or U.wf_problems(r, shape)
             if p:
                 return f"stored order {pa}/{pb}: ill-formed sparse result: {p}"
     if c.op == "squash":
@@ -260,7 +318,7 @@ def oracle(c, o):
         if runs[0]["shape"] != want:
             return f"squash: shape {runs[0]['shape']} but the numbers of distinct indices per mode are {want}"
     c0 = canon_py(runs[0])
-    for r, (pa, pb) in zip(runs[1:], c.args["variants"][1:]):
+    for r, (pa, pb) in zip(runs[1:], labels(c)[1:]):
         if canon_py(r) != c0:
             return f"stored order {pa}/{pb} of the same operands gives a different result: {r} vs {runs[0]}"
     return None
@@ -281,21 +339,20 @@ def _squash_shape(c):
     return c.op == "squash" and any(len({s[n] for s in a["subs"]}) != len(a["subs"]) for n in range(len(a["shape"])))
 
 
+def _div_sparse_bad(c):
+    """A-07: sparse / sparse is right only when both operands have the same support stored in aligned order"""
+    a = c.args
+    if c.op != "div" or a.get("rk") != "sparse":
+        return False
+    sa = {tuple(s) for s in a["subs"]}
+    sb = {tuple(s) for s in a["bsubs"]}
+    return sa != sb or not U.common_aligned(a)
+
+
 TRIGGERS = {
-    "div_sparse_supports_differ_or_misaligned_some_order": _any_variant(c03._div_sparse_bad),
+    "div_sparse_supports_differ_or_misaligned_some_order": _any_variant(_div_sparse_bad),
     "squash_repeated_index_in_some_mode": _squash_shape,
 }
-
-def _scale_zero_factor(c, o=None):
-    """C06-Z2: scale by a factor that is zero at the position of a stored entry (the product is stored as an explicit zero)"""
-    a = c.args
-    if c.op != "scale":
-        return False
-    F = dict(zip(map(tuple, tgen.all_subs(a["fshape"])), a["fdata"]))
-    return any(F[tuple(s[m] for m in a["dims"])] == 0 for s in a["subs"])
-
-
-TRIGGERS["scale_zero_factor_at_stored_entry"] = _scale_zero_factor
 
 # Genuine defects seen by the second stream that are not yet recorded in findings.d: name -> predicate(case, observation).
 # A case for which a predicate holds is skipped (coq_check returns None) until the finding is recorded; nothing else is.
@@ -318,7 +375,6 @@ W22 = {"shape": [2, 2]}
 WITNESS_INPUTS = {
     "A-07": ("div", dict(W22, subs=[[1, 0]], vals=[4], rk="sparse", bsubs=[[0, 0], [1, 1]], bvals=[2, 3])),
     "A-27": ("squash", {"shape": [3, 4], "subs": [[0, 1], [2, 1]], "vals": [2, 1]}),
-    "C06-Z2": ("scale", {"shape": [2, 2], "subs": [[0, 0], [1, 1]], "vals": [2, 3], "dims": [1], "fshape": [2], "fdata": [0, 4],
-                         "fkind": "tensor"}),
 }
 WITNESSES = {k: _witness(*v) for k, v in WITNESS_INPUTS.items()}
+
